@@ -40,8 +40,10 @@ def cases(tier):
                 continue
             if all(x == 1 for x in dims):
                 continue
-            for c in (False, True):
+            for c in (False, True, 'rhs', 'guess'):        # 'rhs' / 'guess': only that object is complex (mixed dtypes)
                 for opk in ('dense', 'ttbuilt'):
+                    if c in ('rhs', 'guess') and (opk == 'ttbuilt' or d == 4):
+                        continue
                     if d == 1 and opk == 'ttbuilt':
                         continue
                     for rb in (1, 2):
@@ -131,7 +133,8 @@ def _install():
 def make_problem(case, rng):
     from scikit_tt.tensor_train import TT
     import scikit_tt.tensor_train as tt
-    dims, c = case['dims'], case['c']
+    dims, cc = case['dims'], case['c']
+    c = cc is True
     d = len(dims)
     n = int(np.prod(dims))
     if case['op'] == 'dense':
@@ -143,7 +146,7 @@ def make_problem(case, rng):
         Bt = (1.0 / Bt.norm()) * Bt
         op = Bt.transpose(conjugate=True) @ Bt + tt.eye(dims)
     A = mat(op)
-    b = tt_from(rand_cores(rng, dims, [1] * d, [1] + [case['rb']] * (d - 1) + [1], c))
+    b = tt_from(rand_cores(rng, dims, [1] * d, [1] + [case['rb']] * (d - 1) + [1], cc in (True, 'rhs')))
     return op, A, b
 
 
@@ -157,8 +160,8 @@ def run_case(case, seed):
     op, A, b = make_problem(case, rng)
     bv = vec(b)
     xs = np.linalg.solve(A, bv)
-    guess = tt_from(rand_cores(rng, dims, [1] * d, rg, c))
-    r.nontrivial = d >= 2 and (max(rg) > 1 or c)
+    guess = tt_from(rand_cores(rng, dims, [1] * d, rg, c in (True, 'guess')))
+    r.nontrivial = d >= 2 and (max(rg) > 1 or bool(c))
     sop, sb, sg = snap(op), snap(b), snap(guess)
     thr = case['thr']; mr = np.inf if case['mr'] in (None, 'inf') else case['mr']
     binding = meth == 'mals' and mr != np.inf
@@ -204,7 +207,7 @@ def run_case(case, seed):
                     r.close(key + ':exact-at-max-rank', vec(x), xs, 1e-8, 'repeats %d' % reps)
     # two-site blocks span everything when d == 2: exact regardless of the guess ranks
     # fixed point: exact (representable) solution as guess
-    xg = tt_from(rand_cores(rng, dims, [1] * d, rg, c))
+    xg = tt_from(rand_cores(rng, dims, [1] * d, rg, c is True or c == 'guess'))
     b2 = op @ xg
     xs2 = vec(xg)
     if not binding or all(a <= mr for a in rg[1:-1]):
@@ -218,6 +221,25 @@ def run_case(case, seed):
                 r.close(key + ':fixed-point', vec(y), xs2, 1e-8)
             else:
                 r.fail(key + ':fixed-point:meta', str(meta_problem(y)))
+    # the rank-truncation threshold of MALS must not leak into the micro solves: an ill-conditioned HPD operator (cond 1e6)
+    # with threshold 1e-4; the exact solution (all singular ratios of its unfoldings > 1e-2) is still a fixed point
+    if meth == 'mals' and not binding and case['op'] == 'dense' and c in (False, True):
+        from vt.core import unfolding_svals
+        from scikit_tt.tensor_train import TT
+        n = int(np.prod(dims))
+        Q, _ = np.linalg.qr(rng.standard_normal((n, n)) + (1j * rng.standard_normal((n, n)) if c else 0))
+        Aill = (Q * np.logspace(0, -6, n)) @ Q.conj().T
+        Aill = (Aill + Aill.conj().T) / 2
+        opi = TT(Aill.reshape(dims + dims))
+        xa = xs2.reshape(dims + [1] * d)
+        ratios = [unfolding_svals(xa, d, k_) for k_ in range(1, d)]
+        if all(sv_[min(len(sv_), rg[k_ + 1]) - 1] / sv_[0] > 1e-2 for k_, sv_ in enumerate(ratios)):
+            with r.op(key + ':ill-conditioned-fixed-point:call'):
+                y = sle.mals(opi, xg, opi @ xg, repeats=1, solver=solver, threshold=1e-4, max_rank=np.inf)
+                if meta_problem(y) is None and list(y.row_dims) == list(dims):
+                    r.close(key + ':ill-conditioned-fixed-point', vec(y), xs2, 1e-5, 'threshold 1e-4, cond(A) 1e6')
+        else:
+            r.count('illcond_fixed_point_skipped')
     r.true(key + ':inputs-unchanged', unchanged(op, sop) and unchanged(b, sb) and unchanged(guess, sg),
            'operator, right-hand side or initial guess modified')
     return r
